@@ -23,7 +23,7 @@ def inputs_for(d, rng, tier, alphabet=None):
     if fam == "float":
         return [("f", v) for v in corpus.float_inputs(d, rng, extra=16 if tier == "quick" else 200)]
     if fam == "str":
-        alpha = alphabet or corpus.ASCII_ALPHABET
+        alpha = alphabet or corpus.UNICODE_ALPHABET
         if tier == "quick":
             return [("s", v) for v in corpus.str_inputs(d, rng, alpha, maxlen=3, sample=260)]
         return [("s", v) for v in corpus.str_inputs(d, rng, alpha, maxlen=4, sample=6000)]
